@@ -65,6 +65,14 @@ Theorem C13_wls_solve_optimal : forall m D x, wf m D -> wls_solve m D = Some x -
 Proof. exact wls_solve_optimal. Qed.
 Print Assumptions C13_wls_solve_optimal.
 
+(* the checker clause used on the implementation's output (fit_ok, and chi2_ok / astep_ok / gstep_ok / pca_ok of C15):
+   a vector it accepts with tolerance 0 solves the normal equations and is the global minimiser; with the run-time
+   tolerance it is that statement up to 1e-9 relative on each normal equation *)
+Theorem C13_grad_small_exact_optimal : forall m D sol, wf m D -> grad_small 0 m D sol = true ->
+  length sol = m /\ (forall d, gdot D sol d == 0) /\ forall z, length z = m -> chi2 D sol <= chi2 D z.
+Proof. exact grad_small_exact_optimal. Qed.
+Print Assumptions C13_grad_small_exact_optimal.
+
 (* func_fit (>= 2 good points, weights >= 0): the free coefficients minimise the weighted chi-square of
    (data - fixed part) over all vectors; res = scatter(free solution, inputans) padded with zeros; yfit = basis . res *)
 Theorem C13_func_fit_optimal : forall f x y w ncoeff ia ans ifunc res yfit,
@@ -80,6 +88,21 @@ Theorem C13_func_fit_optimal : forall f x y w ncoeff ia ans ifunc res yfit,
               forall z, length z = count_true iaf -> chi2 D sol <= chi2 D z.
 Proof. exact func_fit_optimal. Qed.
 Print Assumptions C13_func_fit_optimal.
+
+(* the same in terms of the full coefficient vector: among ALL coefficient vectors carrying the prescribed values at
+   the fixed positions, the returned one minimises the weighted chi-square of the data *)
+Theorem C13_func_fit_optimal_full : forall f x y w ncoeff ia ans ifunc res yfit,
+  func_fit f x y w ncoeff ia ans ifunc = Some (res, yfit) -> (2 <= ngood_of y w)%nat ->
+  (ncoeff <= length ia)%nat -> Forall (fun v => 0 <= v) w ->
+  let ncfit := Nat.min (ngood_of y w) ncoeff in
+  let rows := scale_rows ifunc (map (basis_row f ncfit) x) in
+  let iaf := firstn ncfit ia in
+  let D := combine (combine rows w) y in
+  exists resf, res = resf ++ zeros (ncoeff - ncfit) /\ length resf = ncfit /\ fixed_agree iaf resf ans /\
+    yfit = map (fun r => dot r resf) rows /\
+    forall c, length c = ncfit -> fixed_agree iaf c ans -> chi2 D resf <= chi2 D c.
+Proof. exact func_fit_optimal_full. Qed.
+Print Assumptions C13_func_fit_optimal_full.
 
 (* coefficients declared fixed (ia_j = False) keep their prescribed values *)
 Theorem C13_func_fit_fixed_kept : forall f x y w ncoeff ia ans ifunc res yfit j v,
